@@ -394,10 +394,46 @@ def model_run(lines):
     return balanced(hv.MODEL_BIN, lines)
 
 
+def limited_binary(kb):
+    return "/bin/sh -c 'ulimit -v %d; exec %s'" % (kb, hv.IMPL_BIN)
+
+
+def confirm_dead(binary, lines, out, cap=400):
+    """The harness buffers its output, so when it dies the lines answered but not yet flushed are lost and hv.run_lines
+    blames the first of them. Re-run every line reported dead on its own; only the ones that die alone stay dead."""
+    dead = [i for i, o in enumerate(out) if o in ('DIED', 'TIMEOUT')]
+    for i in dead[:cap]:
+        r = hv.run_lines(binary, [lines[i]], shards=1)
+        out[i] = r[0] if r else 'DIED'
+    return out
+
+
 def impl_limited(lines):
     """implementation runner under an address-space limit"""
-    binary = "/bin/sh -c 'ulimit -v %d; exec %s'" % (AS_LIMIT_KB, hv.IMPL_BIN)
-    return balanced(binary, lines)
+    binary = limited_binary(AS_LIMIT_KB)
+    return confirm_dead(binary, lines, balanced(binary, lines))
+
+
+_tight = {}
+
+
+def tight_limit_kb():
+    """smallest address-space limit (MiB steps) under which the harness answers a trivial request, plus 2 MiB"""
+    if 'kb' not in _tight:
+        probe = 'c10_dec h810548656c6c6f 1,3'
+        for mb in (3, 4, 5, 6, 8, 10, 12, 16, 24, 32, 48, 64):
+            r = hv.run_lines(limited_binary(mb * 1024), [probe, probe], shards=1)
+            if len(r) == 2 and r[0].startswith('ok ') and r[1].startswith('ok '):
+                _tight['kb'] = (mb + 2) * 1024
+                break
+        else:
+            _tight['kb'] = 96 * 1024
+    return _tight['kb']
+
+
+def impl_tight(lines):
+    binary = limited_binary(tight_limit_kb())
+    return confirm_dead(binary, lines, hv.run_lines(binary, lines, shards=4))
 
 
 def split_tail(s, key):
@@ -559,6 +595,31 @@ def run(ctx):
             nsample += 1
             ctx.sample({'stream': tag, 'bytes': data[:24].hex() + ('…' if len(data) > 24 else ''), 'n': len(data),
                         'plan': plan[:40], 'model': a_main[:140], 'impl': b_core[:140]})
+
+    # ---------------- short inputs again, under a limit a few MiB above what the harness itself needs ----------------
+    # (a buffer sized from the claimed length instead of the bytes supplied kills the process here even if it is capped
+    #  well below the general limit)
+    small = [(line, meta, a) for (line, meta), a in zip(alldec, m)
+             if len(meta['data']) <= 256 and meta['tag'] in ('huge-claim', 'corpus', 'replay', 'rand-mutant', 'split-zero-read')]
+    if small:
+        kb = tight_limit_kb()
+        ctx.extra['tight_address_space_limit_kib'] = kb
+        it = impl_tight([l for l, _, _ in small])
+        ctx.evaluations += len(small)
+        for (line, meta, a), b in zip(small, it):
+            ctx.count('dec-tight:' + meta['tag'])
+            a_main, _ = split_tail(a, 'alloc')
+            b_main, _ = split_tail(b, 'cap')
+            if b_main.startswith('err:'):
+                b_main, _ = split_tail(b_main, 'consumed')
+            if b_main != a_main:
+                data = meta['data']
+                ctx.report({'kind': 'dec', 'data': data.hex(), 'plan': meta['plan'], 'tight': True}, 'impl=' + b_main[:200],
+                           'spec=' + a_main[:200], cls='alloc-claimed', failing_input=True,
+                           what='decoding %d supplied bytes (%s, read plan %s) under a %d KiB address-space limit (the harness '
+                                'itself needs %d KiB less): %s; expected %s — memory is requested from the claimed length, '
+                                'not from the bytes supplied' % (len(data), data[:14].hex(), meta['plan'], kb, 2048,
+                                                                  b_main[:60], a_main[:80]))
 
     # ---------------- Frame::new / Message::to_frame ----------------
     lines_m, lines_i, metas = [], [], []
